@@ -174,3 +174,10 @@ def r6(ctx):
 def r7(ctx):
     from .c17 import r6 as rejected_frame_consumed
     rejected_frame_consumed(ctx)
+
+
+@rule("R-C05-8", min_instances=1, title="'a reason that is not UTF-8' is decided by the real validator: its automaton equals the Unicode definition (fast paths included)")
+def r_sib_r_c05_8(ctx):
+    from .c06 import r1 as validator_language
+    validator_language(ctx)
+
